@@ -38,8 +38,16 @@ static int hn; static struct { char kind; int code; } hlog[64];
 static void str_handler(const char *m, void *p, errno_t e) { (void)m; (void)p; if (hn < 64) { hlog[hn].kind = 'S'; hlog[hn].code = e; } hn++; }
 static void mem_handler(const char *m, void *p, errno_t e) { (void)m; (void)p; if (hn < 64) { hlog[hn].kind = 'M'; hlog[hn].code = e; } hn++; }
 
-static sigjmp_buf jb; static volatile uintptr_t fault_addr; static volatile int fault_sig;
-static void on_fault(int s, siginfo_t *si, void *u) { (void)u; fault_sig = s; fault_addr = (uintptr_t)si->si_addr; siglongjmp(jb, 1); }
+#include <ucontext.h>
+#include <stdio_ext.h>
+static sigjmp_buf jb; static volatile uintptr_t fault_addr; static volatile int fault_sig; static volatile int fault_write;
+static void on_fault(int s, siginfo_t *si, void *u) { fault_sig = s; fault_addr = (uintptr_t)si->si_addr;
+#if defined(__x86_64__)
+    fault_write = u ? (int)((((ucontext_t *)u)->uc_mcontext.gregs[REG_ERR] >> 1) & 1) : 0;   /* page-fault error code bit 1: the access was a write */
+#else
+    fault_write = 0;
+#endif
+    siglongjmp(jb, 1); }
 
 static int hexval(int c) { return c <= '9' ? c - '0' : (c | 32) - 'a' + 10; }
 
@@ -223,6 +231,7 @@ int main(int argc, char **argv) {
                 if (fault_addr >= (uintptr_t)reg && fault_addr < (uintptr_t)reg + STRIDE) { OUT("%d:%ld", i, (long)(fault_addr - (uintptr_t)blk[i].start)); found = 1; }
             }
             if (!found) OUT("?sig%d", fault_sig);
+            OUT(" fk=%c", fault_sig == SIGSEGV ? (fault_write ? 'W' : 'R') : '?');
         }
         diff_statics();
         for (int i = 0; i < nblk; i++) {
